@@ -18,8 +18,7 @@ Two kinds of kernel model (DESIGN §2.2):
   `jitthreshold`: some reads have no syntactic guard (`count[k]`, `time_array[t + count[k]]`, `ends[k]`
   …); the model returns `Except.error .oob` there and the theorems below prove the error unreachable
   under exactly what the public callers guarantee.
-`_jitperievent_trigger_average` has no Lean model: it is covered by the interpreted-vs-compiled
-outcome tie of the check only.
+`_jitperievent_trigger_average`: `PynModel/Kernels/Eta.lean` + `eta_safe`.
 -/
 namespace Pyn.C15
 open Pyn
@@ -29,13 +28,14 @@ theorem restrict_writes_in_bounds (ts st en : Array Int) (hm : st.size = en.size
     (jitrestrict ts st en hm).size ≤ ts.size ∧ ∀ a ∈ jitrestrict ts st en hm, a < ts.size :=
   ⟨jitrestrict_size_le ts st en hm, (jitrestrict_inc ts st en hm).2⟩
 
-/-- KNOWN FINDING (open): a one-sample series makes `jitthreshold` read index 1 -/
 def isOob {α} : R α → Bool
   | .error .oob => true
   | _ => false
 
-theorem threshold_oob_witness : isOob (jitthreshold #[1] #[true] #[0] #[5]) = true := by decide +kernel
-theorem threshold_oob_witness_empty : isOob (jitthreshold #[] #[] #[] #[]) = true := by decide +kernel
+/-- the sizes 0 and 1 that used to read outside the arrays (finding C15-threshold-unguarded, repaired by
+`fix:` 6abb03b / efb22ea) now return: regression witnesses -/
+theorem threshold_one_sample : isOob (jitthreshold #[1] #[true] #[0] #[5]) = false := by decide +kernel
+theorem threshold_empty : isOob (jitthreshold #[] #[] #[] #[]) = false := by decide +kernel
 
 
 def asum (a : Array Nat) : Nat := a.toList.sum
@@ -287,6 +287,24 @@ theorem en_mono (st en : Array Int) (hm : st.size = en.size) (hc : Canon st en h
     have e : a + (d + 1) = a + d + 1 := by omega
     simp only [e]; omega
 
+theorem thrSkip_safe (st en : Array Int) (hm : st.size = en.size) (hc : Canon st en hm) (tt : Int)
+    (hin : InIv st en hm tt) (k : Nat) (hk : k < en.size) :
+    ∃ k', thrSkip en tt k = .ok k' ∧ k' < en.size := by
+  induction hn : en.size - k generalizing k with
+  | zero => omega
+  | succ n ih =>
+    unfold thrSkip
+    simp only [dif_pos hk]
+    split
+    · rename_i hgt
+      obtain ⟨j, hj, hj1, hj2⟩ := hin
+      have hjk : ¬ j ≤ k := by
+        intro hle
+        have := en_mono' st en hm hc j k hle hk
+        omega
+      exact ih (k+1) (by omega) (by omega)
+    · exact ⟨k, rfl, hk⟩
+
 theorem thrLoop_safe (ts : Array Int) (ix : Array Bool) (st en : Array Int) (hm : st.size = en.size)
     (hc : Canon st en hm) (hix : ix.size = ts.size)
     (hin : ∀ i, (h : i < ts.size) → InIv st en hm ts[i]) (t : Nat) (s : ThrSt) (ht : 1 ≤ t) (hk : s.k < en.size) :
@@ -294,73 +312,77 @@ theorem thrLoop_safe (ts : Array Int) (ix : Array Bool) (st en : Array Int) (hm 
   induction hn : ts.size - t generalizing t s with
   | zero =>
     unfold thrLoop
-    have : ¬ t + 1 < ts.size := by omega
+    have : ¬ t < ts.size := by omega
     simp [this]
   | succ n ih =>
     unfold thrLoop
-    by_cases h : t + 1 < ts.size
-    · have r1 : rd ts t = .ok ts[t] := by simp [rd, show t < ts.size by omega]
-      have r2 : rd ts (t-1) = .ok (ts[t-1]'(by omega)) := by simp [rd, show t - 1 < ts.size by omega]
-      have r3 : rd en s.k = .ok en[s.k] := by simp [rd, hk]
-      have r4 : rdB ix t = .ok (ix[t]'(by omega)) := by simp [rdB, show t < ix.size by omega]
-      have r5 : rdB ix (t-1) = .ok (ix[t-1]'(by omega)) := by simp [rdB, show t - 1 < ix.size by omega]
-      simp only [dif_pos h, r1, r2, r3, r4, r5, bind, Except.bind]
+    have h : t < ts.size := by omega
+    have r1 : rd ts t = .ok ts[t] := by simp [rd, h]
+    have r2 : rd ts (t-1) = .ok (ts[t-1]'(by omega)) := by simp [rd, show t - 1 < ts.size by omega]
+    have r3 : rd en s.k = .ok en[s.k] := by simp [rd, hk]
+    have r4 : rdB ix t = .ok (ix[t]'(by omega)) := by simp [rdB, show t < ix.size by omega]
+    have r5 : rdB ix (t-1) = .ok (ix[t-1]'(by omega)) := by simp [rdB, show t - 1 < ix.size by omega]
+    simp only [dif_pos h, r1, r2, r3, r4, r5, bind, Except.bind]
+    split
+    · obtain ⟨k', hk', hk'lt⟩ := thrSkip_safe st en hm hc ts[t] (hin t h) s.k hk
+      simp only [hk']
+      exact ih (t+1) _ (by omega) hk'lt (by omega)
+    · exact ih (t+1) _ (by omega) hk (by omega)
+
+theorem thrLead_safe (ts st en : Array Int) (hm : st.size = en.size) (hc : Canon st en hm)
+    (hin : ∀ i, (h : i < ts.size) → InIv st en hm ts[i]) (k : Nat) (hk : 0 < ts.size → k < en.size) :
+    ∃ k', thrLead ts en k = .ok k' ∧ (0 < ts.size → k' < en.size) := by
+  induction hn : en.size - k generalizing k with
+  | zero =>
+    unfold thrLead
+    by_cases ht : 0 < ts.size
+    · have := hk ht; omega
+    · simp only [dif_neg ht]; exact ⟨k, rfl, fun h => absurd h ht⟩
+  | succ n ih =>
+    unfold thrLead
+    by_cases ht : 0 < ts.size
+    · have hk' := hk ht
+      simp only [dif_pos ht, dif_pos hk']
       split
       · rename_i hgt
-        apply ih (t+1) _ (by omega) _ (by omega)
-        -- the sample lies in some interval j; it is beyond interval k, hence j > k
-        obtain ⟨j, hj, hj1, hj2⟩ := hin t (by omega)
-        show s.k + 1 < en.size
-        have hjk : ¬ j ≤ s.k := by
+        obtain ⟨j, hj, hj1, hj2⟩ := hin 0 ht
+        have hjk : ¬ j ≤ k := by
           intro hle
-          have := en_mono' st en hm hc j s.k hle hk
+          have := en_mono' st en hm hc j k hle hk'
           omega
-        omega
-      · exact ih (t+1) _ (by omega) hk (by omega)
-    · simp [h]
+        exact ih (k+1) (fun _ => by omega) (by omega)
+      · exact ⟨k, rfl, fun _ => hk'⟩
+    · simp only [dif_neg ht]; exact ⟨k, rfl, fun h => absurd h ht⟩
 
-/-- **`jitthreshold` stays inside its arrays for every series with at least two samples** that is well
-formed on a canonical support (what `Tsd.threshold` passes).  The sizes 0 and 1 are the open finding
-C15-threshold-unguarded (`threshold_oob_witness`). -/
+/-- **`jitthreshold` stays inside its arrays for every series** — empty and one-sample series included — that is
+well formed on a canonical support (what `Tsd.threshold` passes) -/
 theorem threshold_safe (ts : Array Int) (ix : Array Bool) (st en : Array Int) (hm : st.size = en.size)
-    (hc : Canon st en hm) (hn : 2 ≤ ts.size) (hix : ix.size = ts.size)
+    (hc : Canon st en hm) (hix : ix.size = ts.size)
     (hin : ∀ i, (h : i < ts.size) → InIv st en hm ts[i]) :
     ∃ r, jitthreshold ts ix st en = .ok r := by
-  obtain ⟨j0, hj0, hl0, _⟩ := hin 0 (by omega)
-  have hst : 0 < st.size := by omega
-  have hlead : thrLead ts st 0 = .ok 0 := by
-    unfold thrLead
-    have h0 : ¬ ts[0] < st[0] := by
-      have : st[0] ≤ st[j0] := by
-        rcases Nat.eq_zero_or_pos j0 with rfl | hp
-        · exact Int.le_refl _
-        · obtain ⟨d, rfl⟩ : ∃ d, j0 = 0 + d := ⟨j0, by omega⟩
-          have h1 := en_mono st en hm hc 0 d (by omega)
-          have h2 := hc.1 0 hst
-          have h3 := hc.2 (0 + d - 1) (by omega)
-          have h4 := en_mono st en hm hc 0 (d - 1) (by omega)
-          have e1 : 0 + d - 1 + 1 = 0 + d := by omega
-          have e2 : 0 + (d - 1) = 0 + d - 1 := by omega
-          simp only [e1] at h3
-          simp only [e2] at h4
-          omega
-      omega
-    simp [hst, show 0 < ts.size by omega, h0]
+  have hk0 : 0 < ts.size → 0 < en.size := by
+    intro h
+    obtain ⟨j, hj, _⟩ := hin 0 h
+    omega
+  obtain ⟨k, hlead, hklt⟩ := thrLead_safe ts st en hm hc hin 0 hk0
   unfold jitthreshold
-  have r1 : rdB ix 0 = .ok (ix[0]'(by omega)) := by simp [rdB, show 0 < ix.size by omega]
-  have r2 : rd ts 0 = .ok (ts[0]'(by omega)) := by simp [rd, show 0 < ts.size by omega]
-  simp only [hlead, r1, r2, bind, Except.bind]
-  obtain ⟨s, hs⟩ := thrLoop_safe ts ix st en hm hc hix hin 1
-    (thrInit ts.size (ix[0]'(by omega)) (ts[0]'(by omega)) 0) (by omega) (by simpa [thrInit, ← hm] using hst)
-  rw [hs]
-  have hge : ts.size ≥ 2 := hn
-  simp only [hge, if_true]
-  have r3 : rdB ix (ts.size - 1) = .ok (ix[ts.size - 1]'(by omega)) := by simp [rdB, show ts.size - 1 < ix.size by omega]
-  have r4 : rdB ix (ts.size - 1 - 1) = .ok (ix[ts.size - 1 - 1]'(by omega)) := by simp [rdB, show ts.size - 1 - 1 < ix.size by omega]
-  have r5 : rd ts (ts.size - 1) = .ok (ts[ts.size - 1]'(by omega)) := by simp [rd, show ts.size - 1 < ts.size by omega]
-  have r6 : rd ts (ts.size - 1 - 1) = .ok (ts[ts.size - 1 - 1]'(by omega)) := by simp [rd, show ts.size - 1 - 1 < ts.size by omega]
-  simp only [r3, r4, r5, r6, pure, Except.pure]
-  exact ⟨_, rfl⟩
-
+  simp only [hlead, bind, Except.bind]
+  by_cases hn : 0 < ts.size
+  · have r1 : rdB ix 0 = .ok (ix[0]'(by omega)) := by simp [rdB, show 0 < ix.size by omega]
+    have r2 : rd ts 0 = .ok (ts[0]'(by omega)) := by simp [rd, hn]
+    have r3 : rdB ix (ts.size - 1) = .ok (ix[ts.size - 1]'(by omega)) := by simp [rdB, show ts.size - 1 < ix.size by omega]
+    have r4 : rd ts (ts.size - 1) = .ok (ts[ts.size - 1]'(by omega)) := by simp [rd, show ts.size - 1 < ts.size by omega]
+    simp only [hn, if_true, r1, r2, r3, r4]
+    obtain ⟨s, hs⟩ := thrLoop_safe ts ix st en hm hc hix hin 1
+      (thrInit ts.size (ix[0]'(by omega)) (ts[0]'(by omega)) k) (by omega) (by simpa [thrInit] using hklt hn)
+    rw [hs]
+    exact ⟨_, rfl⟩
+  · simp only [hn, if_false, pure, Except.pure]
+    have h0 : ts.size = 0 := by omega
+    have : thrLoop ts ix en 1 (thrInit ts.size false 0 k) = .ok (thrInit ts.size false 0 k) := by
+      unfold thrLoop
+      simp [h0]
+    rw [this]
+    exact ⟨_, rfl⟩
 
 end Pyn.C15
